@@ -478,7 +478,8 @@ def finish(pid, tier, t0, proof, streams, extra_assumptions=(), level_note="", s
             seen.add(sig)
             path = write_replay(pid, {"property": pid, "kind": "failing-input", "stream": name,
                                       "signature": sig, "what": f["what"], "case": f["case"],
-                                      "seed": f.get("replay_seed", seed()), "tier": f.get("replay_tier", tier)})
+                                      "seed": f.get("replay_seed", seed()), "tier": f.get("replay_tier", tier),
+                                      "loglevel": f.get("replay_loglevel", "DEBUG")})
             lines.append("VIOLATION property=%s replay=%s" % (pid, path))
             violations += 1
     elif broken_proof or broken_corr:
